@@ -830,6 +830,16 @@ ProgSpace ==
           \cup {Base \o <<Def("O", TRUE, <<>>, <<x>>)>> \o Text(<<"r", "O", "~(", "~)", "~F", "~(", Sy(y), "~)">>) : x \in R \ {"#"}, y \in R}
           \cup {Base \o Text(<<"r", "F", "~(", Sy(x), "~)", "~E", "~(", "~)", "~F", "~(", Sy(y), "~)">>) : x \in R, y \in R}
           \cup {Base \o Text(<<"r", "F", "~(", Sy(x), "~)", "~S", "~(", "~q", "~)">>) : x \in R}
+    [] Space = "qh" ->   \* '#' is an ordinary token in the replacement list of an OBJECT-like macro (6.10.3.2p1 constrains
+                         \* function-like macros only): alone, before an identifier, before a name that is a parameter of
+                         \* another macro, at the end; expanded directly, inside invocations, via pre-expanded and then
+                         \* stringified arguments.  Every line starts with r so that no '#' is first on an output line.
+       {<<Def("H", FALSE, <<>>, h), Def("STR", TRUE, <<"x">>, <<"#x">>), Def("XSTR", TRUE, <<"x">>, <<"STR", "~(", "~x", "~)">>),
+          Def("F", TRUE, <<"x">>, <<"x">>), Def("G", TRUE, <<"x">>, <<"#x", "H", "x">>)>> \o Text(<<"r">> \o u) :
+          h \in {<<"#">>, <<"#", "x">>, <<"#", "q">>, <<"q", "#">>, <<"#", "#">>, <<"#", "H">>, <<"#", "STR">>},
+          u \in {<<"H">>, <<"H", "H">>, <<"XSTR", "~(", "~H", "~)">>, <<"STR", "~(", "~H", "~)">>, <<"F", "~(", "~H", "~)">>,
+                  <<"F", "~(", "~XSTR", "~(", "~H", "~)", "~)">>, <<"G", "~(", "~H", "~)">>, <<"F", "~(", "~H", "~)", "~H">>,
+                  <<"XSTR", "~(", "~F", "~(", "~H", "~)", "~)", "NL", "r", "H", "~(", "~1", "~)">>}}
     [] Space = "redef2" -> \* define -> USE -> redefine: ctxpush overwrites the space flag of the first replacement token with the
                            \* spacing of the invocation, and white space in front of the replacement list is not part of it
                            \* (6.10.3p2/p7): the first token never takes part in the comparison; interior white space does
